@@ -25,7 +25,9 @@ RULE = (
     "inside the two finest bins around every 2^17 multiple); both one=True and one=False, gff and bed. "
     "Pairs are distinct by construction; a pair is non-trivial when an endpoint lies within 2 of a bin "
     "edge (all grid pairs). Random legs draw (start,end) anywhere in -5..2^29+5 and overlapping/nested "
-    "interval pairs; non-trivial there = an endpoint within 2 of a multiple of 2^17."
+    "interval pairs; non-trivial there = an endpoint within 2 of a multiple of 2^17. The stored_bin leg stores features whose "
+    "coordinates were changed after construction (transform, edit before create_db, edit + update(replace)); non-trivial = the "
+    "change moves the feature to another bin."
 )
 ASSUMPTIONS = [
     "bins() is a pure function of its arguments (no state between calls)",
@@ -305,7 +307,97 @@ class RandomLeg(object):
         return None
 
 
+class StoredBinLeg(object):
+    """A stored feature's bin equals bins(start, end) of the coordinates it is stored with, also when
+    the coordinates were changed between constructing the Feature and storing it."""
+
+    kind = "hyp"
+    name = "stored_bin"
+    budget = {"quick": (8, 150), "thorough": (16, 3000)}
+
+    def strategy(self):
+        from hypothesis import strategies as st
+
+        coord = st.one_of(
+            st.builds(lambda k, m, d: max(1, m * (1 << (17 + 3 * k)) + d), st.integers(0, 3), st.integers(0, 6), st.integers(-2, 2)),
+            st.integers(1, 1 << 21),
+        )
+        shift = st.one_of(st.sampled_from([0, 1, -1, 1 << 17, -(1 << 17), (1 << 20) + 3]), st.integers(-300000, 300000))
+        feat = st.fixed_dictionaries({"start": coord, "len": st.sampled_from([0, 1, 5, 1000, (1 << 17) - 1, 1 << 17, 1 << 20]),
+                                      "dstart": shift, "dend": shift})
+        return st.fixed_dictionaries({
+            "features": st.lists(feat, min_size=1, max_size=6),
+            "route": st.sampled_from(["transform", "edit-then-create", "edit-then-update-replace", "plain"]),
+        })
+
+    def _final(self, f, route):
+        s, e = f["start"], f["start"] + f["len"]
+        if route == "plain":
+            return s, e
+        ns = max(1, s + f["dstart"])
+        ne = max(ns, e + f["dend"])
+        return ns, ne
+
+    def classify(self, case):
+        from_to = [((f["start"], f["start"] + f["len"]), self._final(f, case["route"])) for f in case["features"]]
+        moved = any(expect_one(*a) != expect_one(*b) for a, b in from_to if a[1] < MAXC and b[1] < MAXC)
+        return moved, ["route=" + case["route"]] + (["bin-changes"] if moved else [])
+
+    def check(self, case, ctx):
+        import gffutils
+        from gffutils.bins import bins
+        from gffutils.feature import Feature
+
+        route = case["route"]
+        feats = []
+        for i, f in enumerate(case["features"]):
+            feats.append(Feature(seqid="chr1", source="s", featuretype="gene", start=f["start"], end=f["start"] + f["len"],
+                                 strand="+", attributes={"ID": ["f%d" % i]}))
+        finals = [self._final(f, route) for f in case["features"]]
+        if route == "transform":
+            def t(x):
+                i = int(x.attributes["ID"][0][1:])
+                x.start, x.end = finals[i]
+                return x
+
+            db = gffutils.create_db(feats, ":memory:", transform=t)
+        elif route == "edit-then-create":
+            for x, (s_, e_) in zip(feats, finals):
+                x.start, x.end = s_, e_
+            db = gffutils.create_db(feats, ":memory:")
+        elif route == "edit-then-update-replace":
+            db = gffutils.create_db(feats, ":memory:")
+            edited = []
+            for i, (s_, e_) in enumerate(finals):
+                x = db["f%d" % i]
+                x.start, x.end = s_, e_
+                edited.append(x)
+            db.update(edited, merge_strategy="replace", make_backup=False)
+        else:
+            db = gffutils.create_db(feats, ":memory:")
+        rows = dict((r[0], (r[1], r[2], r[3])) for r in db.execute("SELECT id, start, end, bin FROM features"))
+        for i, (s_, e_) in enumerate(finals):
+            fid = "f%d" % i
+            if fid not in rows or rows[fid][:2] != (s_, e_):
+                return Failure("feature %s stored with coordinates %r, expected %r (route %s)" % (fid, rows.get(fid), (s_, e_), route),
+                               sig={"kind": "stored-coords"})
+            b = rows[fid][2]
+            ok = expect_one(s_, e_) if in_range(s_, e_, "gff") else {1}
+            if b not in ok or b != bins(s_, e_):
+                return Failure("feature %s is stored with coordinates %d..%d and bin %r; bins() gives %r, acceptable %s (route %s)"
+                               % (fid, s_, e_, b, bins(s_, e_), sorted(ok), route), sig={"kind": "stored-bin", "route": route})
+            if db[fid].bin != b:
+                return Failure("db[%r].bin = %r, stored bin %r" % (fid, db[fid].bin, b), sig={"kind": "stored-bin"})
+            # and the stored feature is found by a bin-filtered query around it
+            hit = [x.id for x in db.region(("chr1", s_, e_), completely_within=True)]
+            if fid not in hit:
+                return Failure("region(chr1:%d-%d, completely_within=True) does not return %s stored exactly there" % (s_, e_, fid),
+                               sig={"kind": "stored-bin-query"})
+        return None
+
+
 LEGS = [
+    StoredBinLeg(),
     GridLeg("grid_one", True, {"quick": (16, 0), "thorough": (16, 0)}, {"quick": 20, "thorough": 17}),
     GridLeg("grid_set", False, {"quick": (16, 0), "thorough": (16, 0)}, {"quick": 23, "thorough": 20}),
     RandomLeg(),
